@@ -1192,8 +1192,7 @@ class Console:
                 Console default. Defaults to ``None``.
         """
         if not objects:
-            self.line()
-            return
+            objects = ("",)
 
         if soft_wrap is None:
             soft_wrap = self.soft_wrap
@@ -1303,7 +1302,7 @@ class Console:
             _stack_offset (int, optional): Offset of caller from end of call stack. Defaults to 1.
         """
         if not objects:
-            self.line()
+            self.print()
             return
         with self:
             renderables = self._collect_renderables(
